@@ -93,3 +93,58 @@ pub(crate) fn dial_take() -> crate::Result<Box<dyn Transport>> {
         .unwrap_or_else(|| Err(io::Error::new(io::ErrorKind::Other, "verif-hooks: no pending dial")));
     Ok(res?)
 }
+
+/// Read-only view of the settings an object carries (for the settings-isolation checks).
+#[derive(Debug, Clone, PartialEq, Eq)]
+pub struct SettingsSnapshot {
+    /// `max_headers`
+    pub max_headers: usize,
+    /// `max_redirections`
+    pub max_redirections: u32,
+    /// `follow_redirects`
+    pub follow_redirects: bool,
+    /// `connect_timeout`
+    pub connect_timeout: Duration,
+    /// `read_timeout`
+    pub read_timeout: Duration,
+    /// `timeout`
+    pub timeout: Option<Duration>,
+    /// `accept_invalid_certs`
+    pub accept_invalid_certs: bool,
+    /// `accept_invalid_hostnames`
+    pub accept_invalid_hostnames: bool,
+    /// `allow_compression` (true when the feature is off)
+    pub allow_compression: bool,
+    /// name of the default charset, if any
+    pub default_charset: Option<&'static str>,
+    /// number of added root certificates
+    pub root_certificates: usize,
+    /// `Debug` rendering of the proxy settings
+    pub proxy: String,
+    /// headers stored in the settings
+    pub headers: Vec<(String, Vec<u8>)>,
+}
+
+pub(crate) fn snapshot(s: &crate::request::BaseSettings) -> SettingsSnapshot {
+    SettingsSnapshot {
+        max_headers: s.max_headers,
+        max_redirections: s.max_redirections,
+        follow_redirects: s.follow_redirects,
+        connect_timeout: s.connect_timeout,
+        read_timeout: s.read_timeout,
+        timeout: s.timeout,
+        accept_invalid_certs: s.accept_invalid_certs,
+        accept_invalid_hostnames: s.accept_invalid_hostnames,
+        #[cfg(feature = "flate2")]
+        allow_compression: s.allow_compression,
+        #[cfg(not(feature = "flate2"))]
+        allow_compression: true,
+        #[cfg(feature = "charsets")]
+        default_charset: s.default_charset.map(|c| c.name()),
+        #[cfg(not(feature = "charsets"))]
+        default_charset: None,
+        root_certificates: s.root_certificates.0.len(),
+        proxy: format!("{:?}", s.proxy_settings),
+        headers: s.headers.iter().map(|(n, v)| (n.as_str().to_owned(), v.as_bytes().to_vec())).collect(),
+    }
+}
